@@ -209,6 +209,20 @@ def run(ctx):
             nt = sites_on(sd, NOTIFY + ['parking_lot::Condvar::notify_all'], '.DbInner.log_queue_wait')
             st = [bi for bi, t in sd.calls() if call_matches(t, lib.ATOMIC_STORE) and '.DbInner.shutdown' in lib.receiver_fields(sd, t, 0)]
             lib.precedes(ctx, '2f shutdown-flag-set-before-throttle-wake', sd, st, nt, 'shutdown stores the flag before it wakes the throttled log worker')
+    # the log-queue throttle has no flag of its own: the waiter reads `shutdown` (and the byte count) and parks inside one critical
+    # section of log_queue_wait.work, so every waker has to notify with that mutex held, else the notification can fall between
+    # the waiter's test and its wait and is lost (F38: shutdown notified without the mutex; drop then joined the log worker forever)
+    nsites = [(b, x) for b in F.bodies.values() for x in sites_on(b, NOTIFY + ['parking_lot::Condvar::notify_all'], '.DbInner.log_queue_wait')]
+    ctx.ob('2i0 log-queue-wakers', 'anchor', 'db::DbInner', 'the wakers of the log-queue throttle were found (enact_logs, shutdown)', len(nsites) >= 2, str([(b.path, x) for b, x in nsites]))
+    for b, x in nsites:
+        lib.held_at(ctx, '2i log-queue-waiter-woken-under-its-mutex %s' % b.path, b, x, '.DbInner.log_queue_wait',
+                    'the log-queue throttle is notified with log_queue_wait.work held (the log worker between its look at the shutdown flag / byte count and its wait cannot miss the wake-up)')
+    if pcb:
+        for w in sites_on(pcb, CV_WAIT, '.DbInner.log_queue_wait'):
+            sh_loads = [bi for bi, t in pcb.calls() if call_matches(t, lib.ATOMIC_LOAD) and '.DbInner.shutdown' in lib.receiver_fields(pcb, t, 0) and w in pcb.reaches(bi)]
+            for x in sh_loads[:1]:
+                lib.held_at(ctx, '2i2 shutdown-flag-read-under-log-queue-mutex', pcb, x, '.DbInner.log_queue_wait',
+                            'the log worker reads the shutdown flag and waits in one critical section of log_queue_wait.work')
     # ---------------------------------------------------------------- 3. flag protocol
     sgb = ctx.body('db::WaitCondvar::<bool>::signal')
     if sgb:
